@@ -861,6 +861,8 @@ class Ctx(object):
         r = self._feas()
         if r == "unsat":
             raise PathAbort("assumption infeasible")
+        if r == "unknown":
+            self.pc_known_sat = False
 
     def axiom(self, t, about=None):
         self.axioms.append(t)
@@ -1304,8 +1306,22 @@ class Ctx(object):
         return ok
 
     def confirm_reachable(self):
-        """reachability twin: is the full pc satisfiable"""
-        r, _ = self.solve(z3.BoolVal(True), timeout_ms=self.feas_timeout_ms * 3, prune=False)
+        """reachability twin: is the full pc satisfiable.  Every fork and assumption of the
+        path was already checked incrementally; only when one of those answers was
+        `unknown` is the whole path condition solved again (under a resource limit, since
+        z3 does not always honour its timeout on polynomial constraints)"""
+        if self.pc_known_sat and not getattr(self, "_axioms_after_check", False):
+            r = self._feas()
+            if r != "unknown":
+                return r
+        s = z3.Solver()
+        s.set("timeout", self.feas_timeout_ms * 3)
+        s.set("rlimit", 20000000)
+        for h in self.pc + self.axioms:
+            s.add(h)
+        t0 = time.time()
+        r = str(s.check())
+        self.stats.solver_s += time.time() - t0
         return r
 
 
